@@ -184,6 +184,8 @@ func c07RunOnce(f []string) string {
 				ops = strings.Split(f[3], ",")
 			}
 			return c07RunTable(string(UnHex(f[2])), ops)
+		case "numf", "numfv":
+			return c07RunNumF(f)
 		case "num":
 			var qs []string
 			if f[5] != "." {
@@ -418,6 +420,7 @@ func c07Gen(r *Rand, tier string) []string {
 	var out []string
 	out = append(out, c07AccGen(r, tier)...)
 	out = append(out, c07SortedGen(r, tier)...)
+	out = append(out, c07NumFGen(r, tier)...)
 	for i := 0; i < n; i++ {
 		out = append(out, "agg counter "+HexListS(c07Hist(r, "\x00", 1)))
 		out = append(out, "agg subkey "+HexListS(c07Hist(r, "\x00", 2)))
@@ -534,6 +537,8 @@ func c07Stats(cases []string) map[string]int {
 			if strings.Contains(f[3], "t:") {
 				st["table.withTrim"]++
 			}
+		case "numf", "numfv":
+			c07NumFStats(f, st)
 		case "num":
 			if f[2] == "0" {
 				st["num.noKeep"]++
@@ -563,5 +568,5 @@ var c07Corpus = []string{
 }
 
 func init() {
-	Register("C07", &Prop{Gen: c07Gen, Run: c07Run, Stats: c07Stats, Corpus: append(append([]string{}, c07Corpus...), c07AccCorpus...)})
+	Register("C07", &Prop{Gen: c07Gen, Run: c07Run, Stats: c07Stats, Corpus: append(append(append([]string{}, c07Corpus...), c07AccCorpus...), c07NumFCorpus...)})
 }
